@@ -1705,7 +1705,13 @@ func (c *c11) caseConn(tamper string, wrongKey bool) {
 				return err
 			}
 			for len(got) < n {
-				if err := oneRead([]int{0, 1, 7, 4096, 70000}[c.rng.Intn(5)]); err != nil {
+				// caller buffer sizes: fixed classes plus the neighbourhood of what is
+				// left in readBuf (drain it exactly, leave one byte, ask for one more)
+				capn := []int{0, 1, 7, 4096, 70000}[c.rng.Intn(5)]
+				if rem := r.readBuf.Len(); rem > 1 && c.rng.Intn(3) == 0 {
+					capn = rem - 1 + c.rng.Intn(3)
+				}
+				if err := oneRead(capn); err != nil {
 					rerr = err
 					break
 				}
